@@ -164,17 +164,18 @@ def _dispatch(chk, repo, mod, W):
             w = walk(tb, F, "Poly.__truediv__")
             n_tab += 1
             last = unparse(w.last) if w.last is not None else ""
+            allt = "\n".join(w.texts())
+            hubbed = "thub(%s, " % o_ in allt
+            reads_terms = ("%s._data" % o_) in allt or ("%s.terms()" % o_) in allt
             if ok_kind != "Poly":
-                ok = w.end == "return" and "delta" not in last and any(unparse(st).startswith("%s = thub(%s, " % (o_, o_)) for st in w.ran)
+                ok = w.end == "return" and hubbed and not reads_terms
                 exp = "coefficient-wise division by the (hubbed) operand"
             elif ln == 0:
                 ok = w.end == "raise" and "ZeroDivisionError" in last
                 exp = "ZeroDivisionError"
             elif ln == 1:
-                ges_ = [n for n in ast.walk(w.last) if isinstance(n, ast.GeneratorExp)] if w.last is not None else []
-                ok = w.end == "return" and len(ges_) == 1 and isinstance(ges_[0].elt, ast.Tuple) \
-                    and isinstance(ges_[0].elt.elts[0], ast.BinOp) and isinstance(ges_[0].elt.elts[0].op, ast.Sub) \
-                    and not any(unparse(st).startswith("%s = thub(" % o_) for st in w.ran)
+                shifts = any(isinstance(n, ast.BinOp) and isinstance(n.op, ast.Sub) for st in w.ran for n in ast.walk(st))
+                ok = w.end == "return" and reads_terms and shifts and not hubbed
                 exp = "division by the single term (powers shifted)"
             else:
                 ok = w.end == "raise" and "NotImplementedError" in last
